@@ -67,24 +67,77 @@ func c02Defaults(p *Prog, r *Report, rule string) {
 			r.Undecided(rule, k, "", "not found")
 			continue
 		}
-		info := fi.Pkg.TypesInfo
-		// the level variable: assigned level[0] when given, otherwise a constant equal to ReadCommitted
-		okDefault, okGiven := false, false
+		_ = fi.Pkg.TypesInfo
+		// the level handed on (to the transaction usecase / into the request) is evaluated for the two cases "no level
+		// given" and "one level given", whatever control structure or helper picks it
+		var levelParam types.Object
+		for _, o := range paramObjs(fi) {
+			if o != nil {
+				if sl, ok := o.Type().(*types.Slice); ok && strings.HasSuffix(sl.Elem().String(), "TxIsoLevel") {
+					levelParam = o
+				}
+			}
+		}
+		var levelExpr ast.Expr
 		ast.Inspect(fi.Decl.Body, func(x ast.Node) bool {
-			as, ok := x.(*ast.AssignStmt)
-			if !ok || len(as.Rhs) != 1 {
+			c, ok := x.(*ast.CallExpr)
+			if !ok {
 				return true
 			}
-			if tv, ok := info.Types[as.Rhs[0]]; ok && tv.Value != nil && strings.HasSuffix(tv.Type.String(), "TxIsoLevel") && tv.Value.ExactString() == rc {
-				okDefault = true
+			if p.callIs(fi.Pkg, c, kTxBegin) && len(c.Args) == 2 {
+				levelExpr = c.Args[1]
 			}
-			if ix, ok := ast.Unparen(as.Rhs[0]).(*ast.IndexExpr); ok {
-				if v, ok := constInt(info, ix.Index); ok && v == 0 {
-					okGiven = true
-				}
+			if p.callIs(fi.Pkg, c, "internal/adapter/iso_level.ConvertToGrpc") && len(c.Args) == 1 {
+				levelExpr = c.Args[0]
 			}
 			return true
 		})
+		okDefault, okGiven := false, false
+		if levelParam != nil && levelExpr != nil {
+			f := p.FlatOf(fi)
+			for _, given := range []int64{0, 1} {
+				g := given
+				env := &Env{P: p, Pkg: fi.Pkg, Vars: map[types.Object]*Val{}}
+				env.Hook = func(env *Env, e ast.Expr) (*Val, bool) {
+					switch x := e.(type) {
+					case *ast.CallExpr:
+						if id, ok := x.Fun.(*ast.Ident); ok && id.Name == "len" && len(x.Args) == 1 {
+							if tv, ok := env.Pkg.TypesInfo.Types[x.Args[0]]; ok {
+								if sl, ok := tv.Type.(*types.Slice); ok && strings.HasSuffix(sl.Elem().String(), "TxIsoLevel") {
+									return intVal(g), true
+								}
+							}
+						}
+					case *ast.IndexExpr:
+						if tv, ok := env.Pkg.TypesInfo.Types[x.X]; ok {
+							if sl, ok := tv.Type.(*types.Slice); ok && strings.HasSuffix(sl.Elem().String(), "TxIsoLevel") {
+								if v, ok := constInt(env.Pkg.TypesInfo, x.Index); ok && v == 0 {
+									return &Val{Tag: "given-level"}, true
+								}
+							}
+						}
+					case *ast.Ident:
+						if o := objOf(env.Pkg.TypesInfo, x); o != nil && env.Vars[o] == nil {
+							if sl, ok := o.Type().(*types.Slice); ok && strings.HasSuffix(sl.Elem().String(), "TxIsoLevel") {
+								return &Val{Tag: "levels"}, true
+							}
+						}
+					}
+					return nil, false
+				}
+				f.WalkPath(env) //nolint:errcheck // the walk may stop at the first undecidable guard after the call
+				v, err := env.Eval(levelExpr)
+				if err != nil {
+					continue
+				}
+				if g == 0 && v.C != nil && v.C.ExactString() == rc {
+					okDefault = true
+				}
+				if g == 1 && v.Tag == "given-level" {
+					okGiven = true
+				}
+			}
+		}
 		r.Check(okDefault && okGiven, rule, k+"#level", p.pos(fi.Decl), "given level used, default ReadCommitted", "Begin does not use the level given by the caller or its default is not ReadCommitted")
 	}
 	// (c) Begin usecase stores the requested level and a generated id
